@@ -363,3 +363,51 @@ Proof.
   unfold j_new_e. pose proof (read_until_e_wf 62 es H) as W.
   destruct (read_until_e 62 es) as [[r e] es']. exact W.
 Qed.
+
+(* ---------- the polling consumer extends the consumer that stops at End / the first error ---------- *)
+
+Lemma j_run_polls_prefix : forall guard precord fuel caps k st n,
+  ~ In OutOfFuel (j_run_e_g guard precord fuel true caps k st) ->
+  length (j_run_e_g guard precord fuel true caps k st) <= n ->
+  firstn (length (j_run_e_g guard precord fuel true caps k st)) (j_polls_e_g guard precord n caps k st)
+  = j_run_e_g guard precord fuel true caps k st.
+Proof.
+  intros guard precord. induction fuel as [|fuel IH]; intros caps k st n Hf Hn.
+  - exfalso. apply Hf. left. reflexivity.
+  - cbn [j_run_e_g] in *. destruct n as [|n].
+    { exfalso. destruct (j_next_e_g guard precord (caps k) st) as [st' o].
+      destruct o as [[r|]|e|s|]; cbn [length] in Hn; lia. }
+    cbn [j_polls_e_g].
+    destruct (j_next_e_g guard precord (caps k) st) as [st' o].
+    destruct o as [[r|]|e|s|]; cbn [length firstn] in *; try reflexivity.
+    f_equal. apply IH; [intros C; apply Hf; right; exact C|lia].
+Qed.
+
+Lemma holds_c15_no_fuel : forall {C} (l : list (outcome C)), Holds_c15 l -> ~ In OutOfFuel l.
+Proof.
+  intros C l [rs [o [-> Ho]]] Hin. apply in_app_or in Hin. destruct Hin as [Hin|[Hin|[]]].
+  - apply in_map_iff in Hin. destruct Hin as [x [E _]]. discriminate E.
+  - subst o. destruct Ho as [E|[e E]]; discriminate E.
+Qed.
+
+Section UPollPrefix.
+  Variable A : alphabet.
+  Variable parse_f32 : list N -> option F32.t.
+
+  Lemma u_run_polls_prefix : forall F fuel st n,
+    ~ In OutOfFuel (u_run_e A parse_f32 F fuel true st) ->
+    length (u_run_e A parse_f32 F fuel true st) <= n ->
+    firstn (length (u_run_e A parse_f32 F fuel true st)) (u_polls_e A parse_f32 F n st)
+    = u_run_e A parse_f32 F fuel true st.
+  Proof.
+    intros F. induction fuel as [|fuel IH]; intros st n Hf Hn.
+    - exfalso. apply Hf. left. reflexivity.
+    - cbn [u_run_e] in *. destruct n as [|n].
+      { exfalso. destruct (u_next_e A parse_f32 F st) as [st' o].
+        destruct o as [[r|]|e|s|]; cbn [length] in Hn; lia. }
+      cbn [u_polls_e].
+      destruct (u_next_e A parse_f32 F st) as [st' o].
+      destruct o as [[r|]|e|s|]; cbn [length firstn] in *; try reflexivity.
+      f_equal. apply IH; [intros C; apply Hf; right; exact C|lia].
+  Qed.
+End UPollPrefix.
